@@ -71,6 +71,7 @@ func decodeToARGB(file []byte, limit time.Duration) (pix []int, w, h int, err er
 
 func checkC03(args []string) {
 	run := vx.NewRun("C03", "model_checking", args)
+	activeRun = run
 	run.Rule = "valid VP8L streams that the package's encoder never emits are produced by a seeded structure generator (any subset and order of the four transforms, tile bits 2..9, palettes 1..256 with every packing, cache bits 0..11, meta prefix images with several groups, simple / single-symbol / flat / skewed / 15-bit-deep prefix codes described with and without repeat codes and max_symbol, literals, cache references, backward references over all 120 plane codes and plain distances, overlapping copies); each stream is decoded by the independent TLA+ reader (spec/Vp8l.tla), which defines the pixels, and by webp.Decode; the two must agree. Streams the TLA+ reader rejects are generator mistakes and are skipped. libwebp-encoded lossless fixtures are decoded by the real decoder against their reference PNGs. distinct = distinct generated streams accepted by the specification"
 	run.Assumptions = []string{"the TLA+ reader is the reference for what a stream decodes to (it was validated on real encoder output by C01 and on libwebp files)", "pictures up to 20x14, plus a class of up to 64x40 pictures with long copies and 15-bit codes (TLC speed)"}
 	rng := rand.New(rand.NewSource(run.Seed))
@@ -88,7 +89,7 @@ func checkC03(args []string) {
 		pix, w, h, err, hang := decodeToARGB(wrapVP8L(g.Bytes), 20*time.Second)
 		if hang {
 			run.Violate("hang|"+featureSig(g.Desc), fmt.Sprintf("webp.Decode did not return within 20 s on a generated stream (%s)", g.Desc), map[string]any{"desc": g.Desc, "bytes": g.Bytes})
-			continue
+			run.Finish() // the decoding goroutine cannot be stopped; nothing measured after this point would be reliable
 		}
 		ln := vp8lLine{ID: id, Bytes: vx.Ints(g.Bytes), W: g.W, H: g.H, TZero: 0}
 		if err != nil {
